@@ -40,7 +40,8 @@ def exhaustive(tier):
 
 WORDS = ["Aa", "bb", "Cc", "dd", "von", "de", "la", "Jr.", "III", "{Ee}", "{ff}", "{\\'E}x", "{\\'e}x", "1", "\\'E", "d'Aa", "{\\oe}x", "{von}", "Éa", "ça", "Strauß", "İz", "ﬁn", "ǅa", "ßa", "e", "y", "a", "ß", "O", "é", "{}\\Lukasz", "{}\\lUkasz", "\\Lx", "x{}\\Ly", "{}",
          "A.", "b-C", "{A B}", "{a, b}", "\\\\", "x\\", "\\",
-         "{\\v{C}}apek", "{\\v{c}}X", "{{\\'E}}x", "{a\\B}c", "{\\OE}x", "{\\ss}X", "{Universit{\\\"a}t}", "{x{\\'E}}y", "{\\'{e}}X"]
+         "{\\v{C}}apek", "{\\v{c}}X", "{{\\'E}}x", "{a\\B}c", "{\\OE}x", "{\\ss}X", "{Universit{\\\"a}t}", "{x{\\'E}}y", "{\\'{e}}X",
+         "王", "毛", "泽", "东", "محمد", "בן", "{\\relax}b", "ǅ"]
 
 
 # words whose case needs BibTeX's full rule: special characters (with letter / non-letter control sequences, the 13
@@ -48,7 +49,8 @@ WORDS = ["Aa", "bb", "Cc", "dd", "von", "de", "la", "Jr.", "III", "{Ee}", "{ff}"
 CASEWORDS = ["Aa", "bb", "{Cc}", "{\\'E}x", "{\\'e}X", "{{\\'E}}x", "{{\\'e}}X", "{\\'{E}}x", "{\\'{e}}X", "{a\\B}c", "{A\\b}C",
              "{x{\\'E}}y", "{X{\\'e}}Y", "{\\OE}x", "{\\ss}X", "{\\relax Ch}x", "{\\relax ch}X", "{\\oe x}X", "{\\'\\e}X", "{\\v{c}}X",
              "{\\v{C}}apek", "{\\OEx}Y", "x{\\OE}", "{\\L}ukasz", "{\\l}Ukasz", "{\\ x}Y", "{\\ X}y", "{\\AA}ngstr{\\\"o}m", "{\\i}X",
-             "{}{\\'E}x", "1{\\'e}X", "{\\'1e}X", "{\\o}", "{\\O}", "{{\\O}}x", "{\\relax}X", "{\\relax{}}x", "{\\oe\\'E}", "{\\'{}}e"]
+             "{}{\\'E}x", "1{\\'e}X", "{\\'1e}X", "{\\o}", "{\\O}", "{{\\O}}x", "{\\relax}X", "{\\relax{}}x", "{\\oe\\'E}", "{\\'{}}e",
+             "{\\relax}b", "{\\TeX}nician", "{\\'{}}x", "1{\\.}b", "王", "毛b", "b王", "{\\'王}b", "ǅ", "ǅb", "ªB", "\u05d0b"]
 
 
 def cases(tier, seed, shard, nshards):
@@ -192,11 +194,13 @@ def check(case, ctx):
         if not err:
             out = [v for v in out if v["kind"] != "invalid-name-accepted"]
             out.append(Violation("invalid-name-accepted", f"C13:invalid-name-accepted:{ref}", dict(name=s, got=got, why=ref)))
-        elif ctx.cases % 50 == 0:
+        elif case.get("eb") or ctx.cases % 50 == 0:
             # containment through the middleware: error block retaining the original entry
             ctx.mon("error_block")
             for inplace in (False, True):
-                lib = build.library([["entry", "article", "k", [["title", "{T}"], ["author", [s]]], "raw", 0], ["entry", "book", "ok", [["author", ["Aa Bb"]]]]])
+                # a valid name field before and after the invalid one: "retains the original entry" = none of them split
+                lib = build.library([["entry", "article", "k", [["editor", ["Cc Dd"]], ["title", "{T}"], ["author", [s]], ["translator", ["Ee Ff"]]], "raw", 0],
+                                     ["entry", "book", "ok", [["author", ["Aa Bb"]]]]])
                 st, r2 = sp.escape(lambda: N.SplitNameParts(allow_inplace_modification=inplace).transform(lib))
                 ctx.ran()
                 if st == "raise":
@@ -206,9 +210,10 @@ def check(case, ctx):
                 ok = sp.block_kind(b) == "mwerror" and isinstance(b.error, N.InvalidNameError) and sp.block_kind(b.ignore_error_block) == "entry"
                 if ok:
                     e = b.ignore_error_block
-                    ok = e.key == "k" and e.entry_type == "article" and [(f.key, f.value) for f in e.fields] == [("title", "{T}"), ("author", [s])]
+                    ok = e.key == "k" and e.entry_type == "article" and [(f.key, f.value) for f in e.fields] == [("editor", ["Cc Dd"]), ("title", "{T}"), ("author", [s]), ("translator", ["Ee Ff"])]
                 ok = ok and len(r2.blocks) == 2 and sp.block_kind(r2.blocks[1]) == "entry"
                 if not ok:
+                    case["eb"] = True      # a stored witness replays this (otherwise sampled) step
                     out.append(Violation("error-block", "C13:error-block-does-not-retain-entry", dict(name=s, got=[sp.block_kind(x) for x in r2.blocks])))
                     break
     if valid and not err and not out and ctx.cases % 40 == 0:
